@@ -26,6 +26,8 @@ func main() {
 		famC01(g, o, *n, *thorough)
 	case "c05":
 		famC05(g, o, *n, *thorough)
+	case "c14":
+		famC14(g, o, *n, *thorough)
 	case "c04":
 		famC04(g, o, *n, *thorough)
 	case "c03":
